@@ -72,6 +72,10 @@ func (v *SliceSchema) validate(ctx *p.SchemaCtx) {
 		// only run posttransforms on success
 		if !ctx.HasErrored() {
 			for _, fn := range v.postTransforms {
+				// only while no issue exists: a transform may have reported one itself (ctx.AddIssue) without returning an error
+				if ctx.HasErrored() {
+					return
+				}
 				err := fn(ctx.ValPtr, ctx)
 				if err != nil {
 					ctx.AddIssue(ctx.IssueFromUnknownError(err))
@@ -155,6 +159,10 @@ func (v *SliceSchema) process(ctx *p.SchemaCtx) {
 		// only run posttransforms on success
 		if !ctx.HasErrored() {
 			for _, fn := range v.postTransforms {
+				// only while no issue exists: a transform may have reported one itself (ctx.AddIssue) without returning an error
+				if ctx.HasErrored() {
+					return
+				}
 				err := fn(ctx.ValPtr, ctx)
 				if err != nil {
 					ctx.AddIssue(ctx.IssueFromUnknownError(err))
